@@ -135,3 +135,21 @@ def same_predicate(func: ast.AST, atoms: dict[str, str], spec, constants: tuple 
         if got != want:
             return False, ", ".join(f"{n}={v:g}" for n, v in zip(names, combo)) + f": returns {got}, expected {want}"
     return True, ""
+
+
+def executed(stmts, atoms: dict[str, str], env: dict) -> list[ast.stmt]:
+    """The simple statements executed, in order, when the tests (comparisons of the atoms) have the outcome they have
+    under ``env``; stops at the first return."""
+    out = []
+    for st in stmts:
+        if isinstance(st, ast.If):
+            out.extend(executed(st.body if _truth(st.test, atoms, env, {}) else st.orelse, atoms, env))
+            if out and isinstance(out[-1], ast.Return):
+                return out
+        elif isinstance(st, (ast.For, ast.While, ast.Try, ast.With, ast.Match)):
+            raise Unsupported(f"statement `{ast.unparse(st)[:40]}`")
+        else:
+            out.append(st)
+            if isinstance(st, ast.Return):
+                return out
+    return out
